@@ -264,7 +264,10 @@ impl ErrCtx {
     /// a-priori absolute error of a running sum of terms bounded by `term_bound` (per element)
     /// whose current absolute sum is `abs_sum`
     pub fn delta(&self, abs_sum: f64, term_bound: f64) -> f64 {
-        let drift = if self.exact { 0.0 } else { self.ops * self.w * term_bound };
+        // the drift term applies to exact-grid data as well: that raw power sums of such data are
+        // exact is a fact about one algorithm, not about the property (a Welford-style update of the
+        // mean / M2 is correct "up to rounding" and not exact on integers)
+        let drift = self.ops * self.w * term_bound;
         self.eps * (16.0 * abs_sum + 4.0 * drift)
     }
     pub fn aggregate(n: usize) -> ErrCtx {
@@ -511,7 +514,7 @@ pub fn wma_expect(vals: &[f64], e: &ErrCtx) -> Expect {
 /// history on inexact data because each step subtracts the running plain sum)
 fn trend_sxt_delta(axt: f64, e: &ErrCtx, vals: &[f64]) -> f64 {
     let m = e.hist_maxabs.max(maxabs(vals));
-    let drift = if e.exact { 0.0 } else { e.ops * e.w * e.w * m + e.ops * e.ops * e.w * m };
+    let drift = e.ops * e.w * e.w * m + e.ops * e.ops * e.w * m;
     e.eps * (16.0 * axt + 4.0 * drift)
 }
 
